@@ -28,7 +28,7 @@ import gal
 import yaql
 from dateutil import tz as du_tz
 
-GEN = []
+GEN = ["dtdecls"]
 RULE = ("one yaql call per case on host data; datetimes from the year grid {1,1969,1970,2000,2038,9999} + range "
         "edges x random month/day/time/microsecond, as naive objects, aware objects (datetime.timezone, "
         "dateutil tzoffset/tzutc) and values built by yaql's own datetime(...); offsets at minute resolution in "
@@ -45,8 +45,8 @@ ASSUMPTIONS = ["tzinfo objects are fixed-offset zones (datetime.timezone, dateut
                "utcoffset independent of the date",
                "offsets are whole minutes strictly inside (-24h, 24h) as in the property's quantifier",
                "timestamps handed to datetime(timestamp, offset) are integers or floats that determine their "
-               "microsecond exactly; not modelled: datetime(string), format, now(), localtz(), year/month/day fields, "
-               "replace(), timespan * float, timespan / number"]
+               "microsecond exactly; not modelled: datetime(string), format, now(), localtz(), "
+               "timespan * float, timespan / number"]
 EXPLANATION = ("algebraic proof (lia/ring over Z, Q) of the instant laws on the model + differential check of every "
                "single call of date_time.py against the model inside Coq + the laws themselves run on the real engine")
 ALLOWED_AXIOMS = []
@@ -205,11 +205,12 @@ def obs_agree(obs, ref):
 # cases: (op name, args) ; text + data for yaql ; Gallina term ; Python reference
 # --------------------------------------------------------------------------
 CMPS = {"Lt": "<", "Le": "<=", "Gt": ">", "Ge": ">=", "Eq": "=", "Ne": "!="}
-FIELDS = {"FHour": "hour", "FMinute": "minute", "FSecond": "second", "FMicrosecond": "microsecond",
+FIELDS = {"FYear": "year", "FMonth": "month", "FDay": "day", "FHour": "hour", "FMinute": "minute", "FSecond": "second", "FMicrosecond": "microsecond",
           "FWeekday": "weekday"}
 UNITS = {"UMicroseconds": ("microseconds", 1), "UMilliseconds": ("milliseconds", 1000),
          "USeconds": ("seconds", 10 ** 6), "UMinutes": ("minutes", 6 * 10 ** 7),
          "UHours": ("hours", 36 * 10 ** 8), "UDays": ("days", 864 * 10 ** 8)}
+FIELD_NAMES = ["year", "month", "day", "hour", "minute", "second", "microsecond"]
 TSOPS = {"TAdd": "%s + %s", "TSub": "%s - %s", "TMulInt": "%s * %s", "TDivTs": "%s / %s", "TNeg": "-%s", "TPos": "+%s"}
 
 
@@ -271,6 +272,13 @@ def case_text(c):
         return "%s.time" % H(0, "a"), data
     if op == "OpField":
         return "%s.%s" % (H(1, "a"), FIELDS[a[0]]), data
+    if op == "OpBuild":
+        return "datetime(%s, timespan(minutes => %d))" % (", ".join("%d" % v for v in a[:7]), a[7]), None
+    if op == "OpReplace":
+        kw = ["%s => %d" % (n, v) for n, v in zip(FIELD_NAMES, a[1]) if v is not None]
+        if a[2] is not None:
+            kw.append("offset => timespan(minutes => %d)" % a[2])
+        return "%s.replace(%s)" % (H(0, "a"), ", ".join(kw)), data
     if op == "OpUnit":
         return "$.t.%s" % UNITS[a[0]][0], {"t": a[1] * US}
     if op == "OpTimespan":
@@ -304,6 +312,11 @@ def case_op_term(c):
         return gal.app(op, a[0], hdt_term(a[1]), hdt_term(a[2]))
     if op == "OpField":
         return gal.app(op, a[0], hdt_term(a[1]))
+    if op == "OpBuild":
+        return gal.app(op, *([z(v) for v in a[:7]] + [z(a[7] * 60000000)]))
+    if op == "OpReplace":
+        return gal.app(op, hdt_term(a[0]), *([gal.opt(v, z) for v in a[1]] +
+                                             [gal.opt(None if a[2] is None else a[2] * 60000000, z)]))
     if op == "OpUnit":
         return gal.app(op, a[0], z(a[1]))
     if op == "OpTimespan":
@@ -374,6 +387,21 @@ def reference(c):
             d = ref_aware(a[1])
             f = FIELDS[a[0]]
             return ("int", d.weekday() if f == "weekday" else getattr(d, f)), None
+        if op == "OpBuild":
+            try:
+                d = datetime.datetime(*a[:7], tzinfo=datetime.timezone(datetime.timedelta(minutes=a[7])))
+            except ValueError:
+                return ("err", "RangeErr"), None
+            return _dt_obs(d), None
+        if op == "OpReplace":
+            d = ref_aware(a[0])
+            kw = {n: v for n, v in zip(FIELD_NAMES, a[1]) if v is not None}
+            if a[2] is not None:
+                kw["tzinfo"] = datetime.timezone(datetime.timedelta(minutes=a[2]))
+            try:
+                return _dt_obs(d.replace(**kw)), None
+            except ValueError:
+                return ("err", "RangeErr"), None
         if op == "OpUnit":
             if a[0] == "UMicroseconds":
                 return ("int", a[1]), None
@@ -417,6 +445,8 @@ LAW = {
     "OpDate": "d.date is not midnight of d's wall day in d's zone",
     "OpTime": "d.time is not d's wall time of day",
     "OpField": "wall-clock field of d is wrong",
+    "OpBuild": "datetime(year, ..., offset) is not the reading with these fields at that offset",
+    "OpReplace": "d.replace(...) is not d's reading with the given fields / offset replaced (naive taken as UTC)",
     "OpUnit": "timespan unit property is not microseconds / unit",
     "OpTimespan": "timespan(...) is not the sum of its components",
     "OpTsCmp": "timespan comparison is not that of the microsecond counts",
@@ -553,9 +583,13 @@ def gen_case(rng):
         return {"op": "OpCmp", "args": [rng.choice(list(CMPS)), a, gen_related(rng, a)]}
     if r < 0.82:
         return {"op": rng.choice(["OpDate", "OpTime"]), "args": [gen_host(rng)]}
-    if r < 0.86:
+    if r < 0.85:
         return {"op": "OpField", "args": [rng.choice(list(FIELDS)), gen_host(rng)]}
-    if r < 0.92:
+    if r < 0.875:
+        return gen_build(rng)
+    if r < 0.90:
+        return gen_replace(rng)
+    if r < 0.935:
         t = gen_ts(rng)
         if rng.random() < 0.05:
             t = rng.choice([-999999999 * DAY, 10 ** 9 * DAY - 1, 2 ** 53 + 1, -(2 ** 53) - 1, 2 ** 60 + 12345])
@@ -576,6 +610,39 @@ def gen_case(rng):
     if o in ("TNeg", "TPos"):
         y = 0
     return {"op": "OpTsOp", "args": [o, gen_ts(rng), y]}
+
+
+def gen_field_values(rng, n):
+    """plausible and slightly-out-of-range values for the seven fields"""
+    return [rng.choice([n.year, n.year, 1, 9999, 2000, 1900, 2100, 0, 10000, rng.randrange(1, 10000)]),
+            rng.choice([n.month, 1, 2, 12, 0, 13, rng.randrange(1, 13)]),
+            rng.choice([n.day, 1, 28, 29, 30, 31, 0, 32, rng.randrange(1, 29)]),
+            rng.choice([n.hour, 0, 23, 24, -1, rng.randrange(24)]),
+            rng.choice([n.minute, 0, 59, 60, rng.randrange(60)]),
+            rng.choice([n.second, 0, 59, 60, rng.randrange(60)]),
+            rng.choice([n.microsecond, 0, 999999, 1000000, -1, rng.randrange(10 ** 6)])]
+
+
+def gen_build(rng):
+    n = DMIN + gen_wall(rng) * US
+    vals = [n.year, n.month, n.day, n.hour, n.minute, n.second, n.microsecond]
+    if rng.random() < 0.5:
+        alt = gen_field_values(rng, n)
+        for i in range(7):
+            if rng.random() < 0.3:
+                vals[i] = alt[i]
+    return {"op": "OpBuild", "args": vals + [gen_offmin(rng)]}
+
+
+def gen_replace(rng):
+    h = gen_host(rng)
+    n = DMIN + h["wall"] * US
+    alt = gen_field_values(rng, n)
+    reps = [alt[i] if rng.random() < 0.3 else None for i in range(7)]
+    off = gen_offmin(rng) if rng.random() < 0.4 else None
+    if all(v is None for v in reps) and off is None:
+        reps[2] = rng.choice([1, 2, 3])
+    return {"op": "OpReplace", "args": [h, reps, off]}
 
 
 def specs_of(c):
@@ -633,6 +700,8 @@ THEOREMS = {
     "OpAdd": ["C20_add_sub"], "OpAddR": ["C20_add_sub"], "OpSubTs": ["C20_add_sub"], "OpDiff": ["C20_add_sub"],
     "OpCmp": ["C20_order_is_instant_order", "C20_naive_is_utc"],
     "OpUnit": ["C20_units"], "OpTimespan": ["C20_units"],
+    "OpBuild": ["C20_civil_roundtrip"], "OpReplace": ["C20_fields_determine_reading", "C20_naive_is_utc"],
+    "OpField": ["C20_civil_roundtrip"], "OpDate": ["C20_date_time_split"], "OpTime": ["C20_date_time_split"],
 }
 
 
